@@ -12,19 +12,43 @@ from ..gen import netgen, richnet
 from ..oracles import refwalk
 
 PROPERTY = "C22"
-READY = False
-NOT_READY_REASON = "under construction"
+READY = True
 TECHNIQUE = ("runtime monitoring: referential-integrity walker + identity-preservation oracle evaluated after every operation "
              "of seeded random create/toolbox edit histories")
 LEVEL = "exploration"
-CASES = {"quick": 400, "thorough": 12000}
-BUDGET = {"quick": 60, "thorough": 1500}
-FLOORS = {"quick": {"nontrivial": 150, "max_skip_frac": 0.1}, "thorough": {"nontrivial": 4000, "max_skip_frac": 0.1}}
-RULE = ("one case = one history of 8-20 operations (create_*, drop_*, fuse_buses, select_subnet, merge_nets, reindex_*, "
-        "create_continuous_*_index, replace_*, group drops) on a seeded random network with b/l/t/t3 switches, measurements, "
-        "poly/pwl costs, index and reference-column groups, controllers, characteristic tables; the oracles run after every "
-        "operation; non-trivial = at least 5 operations executed; distinct = digest of start network + operation list")
-ASSUMPTIONS = []
+CASES = {"quick": 480, "thorough": 12000}
+BUDGET = {"quick": 75, "thorough": 1500}
+_OPS_FLOOR = {"op:fuse_buses": 120, "op:select_subnet": 60, "op:merge_nets": 40, "op:reindex_buses": 80, "op:reindex_elements": 150,
+              "op:reindex_elements_bus": 40, "op:create_continuous_bus_index": 40, "op:create_continuous_elements_index": 50,
+              "op:drop_elements": 150, "op:drop_elements_simple": 80, "op:drop_buses": 30, "op:drop_lines": 25, "op:drop_trafos": 15,
+              "op:drop_trafos3w": 15, "op:drop_elements_at_buses": 25, "op:drop_switches_at_buses": 25, "op:drop_inner_branches": 15,
+              "op:drop_inactive_elements": 20, "op:drop_out_of_service_elements": 20, "op:replace_ext_grid_by_gen": 15,
+              "op:replace_gen_by_ext_grid": 15, "op:replace_gen_by_sgen": 10, "op:replace_sgen_by_gen": 15, "op:replace_pq_elmtype": 20,
+              "op:replace_ward_by_internal_elements": 10, "op:replace_xward_by_internal_elements": 10, "op:replace_xward_by_ward": 10,
+              "op:replace_impedance_by_line": 20, "op:replace_line_by_impedance": 15, "op:merge_same_bus_generation_plants": 25,
+              "op:create": 100, "op:create_ref": 100, "op:create_bad": 80}
+FLOORS = {"quick": {"nontrivial": 240, "tags": _OPS_FLOOR, "extras": {"ops": 3500, "refs_checked": 250000}, "max_skip_frac": 0.05},
+          "thorough": {"nontrivial": 6000, "tags": {k: 10 * v for k, v in _OPS_FLOOR.items()},
+                       "extras": {"ops": 90000, "refs_checked": 6000000}, "max_skip_frac": 0.05}}
+RULE = ("one case = one history of 8-20 operations (create_*, invalid creations, drop_*, fuse_buses, select_subnet, merge_nets, "
+        "reindex_buses/reindex_elements, create_continuous_*_index, replace_*, merge_same_bus_generation_plants ...) with random valid "
+        "arguments on a seeded random network with b/l/t/t3 switches, measurements (bus, branch, bus-element targets, named and "
+        "bus-index sides), poly/pwl costs, index and reference-column groups, controllers, tap/shunt characteristic tables, FACTS/DC "
+        "tables and optional result tables; both oracles run after every operation; non-trivial = at least 5 operations executed; "
+        "distinct = digest of start network + operation list")
+ASSUMPTIONS = [
+    "walker: a reference is any bus/bus_dc column of any input table, switch.element by et, measurement.element by element_type and "
+    "numeric measurement.side (bus index), cost.element by et, group members (index rows and reference-column rows), controller "
+    "element/input/output indices (res_x counts as x) and characteristic_index, id_characteristic_table of trafo/trafo3w/shunt rows "
+    "that use their table, res_* index subset of element index",
+    "identity oracle (stricter reading, justified by the docstrings 'considers the new bus indices in all other element tables' / "
+    "'replaces all references of old indices by the new ones' / merge_nets 'net2 elements get reindexed'): after reindex_*, "
+    "create_continuous_*_index and merge_nets every reference must point to the same row (followed by a unique id) as before; "
+    "after all other operations a surviving reference may not point to another pre-existing row (fuse_buses bus reroutes exempt)",
+    "operations that raise are not judged (net restored from a copy) and counted in op_raised:*; drop_buses(drop_elements=False), "
+    "drop_group_and_elements (documented to need closed groups) and user-written controllers are outside the domain",
+    "after a violation the harness removes the dangling referrers (plain pandas) so later operations start from a clean net",
+]
 
 UID = refwalk.UID
 BUS_EL = ["load", "sgen", "gen", "ext_grid", "storage", "shunt", "ward", "xward", "motor", "asymmetric_load", "asymmetric_sgen"]
@@ -314,7 +338,7 @@ def op_merge_nets(net, g):
     new = tb.merge_nets(a, b, **kw)
     new["_pv_merge_count"] = net.get("_pv_merge_count", 0) + 1
     new["_pv_uid_count"] = max(net.get("_pv_uid_count", 0), other.get("_pv_uid_count", 0))
-    return new, dict(op="merge_nets", seed2=seed2, kw=kw, other_first=other_first, _rel_union=rel_union)
+    return new, dict(op="merge_nets", seed2=seed2, kw=kw, other_first=other_first, _rel_union=rel_union, _inputs=(a, b))
 
 
 def op_reindex_buses(net, g):
@@ -465,6 +489,17 @@ SIMPLE_DROPPERS = ("drop_elements", "drop_elements_simple", "drop_out_of_service
 SELECT_FILTERED = set(BUS_EL + BRANCH_EL + ["bus", "switch", "measurement", "poly_cost", "pwl_cost"])
 
 
+def _merge_lookup(idx1, idx2):
+    """the renaming merge_nets applies to the rows of one table of net2 (documented: duplicated indices are appended after the
+    largest index), computed per table exactly as _merge_nets does - element and result tables independently"""
+    dup = [i for i in idx2 if i in set(idx1)]
+    if not dup:
+        return {}
+    rest = [i for i in idx2 if i not in set(idx1)]
+    start = max([max(idx1)] + ([max(rest)] if rest else [])) + 1
+    return dict(zip(dup, range(start, start + len(dup))))
+
+
 def _pre_row(pre, table, r):
     """row of pre[table] a broken reference r pointed to before the operation (by index, or by uid for reference-column groups)"""
     if not refwalk.has(pre, table) or not pre[table].index.is_unique:
@@ -489,6 +524,18 @@ def classify(info, r, stale, pre, net):
     if (kind == "group_member" and isinstance(r["target"], str) and refwalk.has(net, tt) and "[" not in r["col"]
             and any(isinstance(c, float) and np.isnan(c) for c in net[tt].columns) and r["target"].startswith("%s_" % tt)):
         return "attach_to_group_nan_reference_column"  # member '<et>_<idx>_<uuid>' of an index group + a column named NaN in net[et]
+    if op == "merge_nets":
+        inputs = info.get("_inputs", ())
+        if kind == "res_index" and info["kw"]["merge_results"] and len(inputs) == 2 and all(
+                refwalk.has(x, table) and refwalk.has(x, tt) for x in inputs):
+            a, b = inputs
+            lk_res, lk_el = _merge_lookup(a[table].index, b[table].index), _merge_lookup(a[tt].index, b[tt].index)
+            if any(lk_res.get(j, j) == r["row"] and lk_el.get(j, j) != r["row"] for j in b[table].index.intersection(b[tt].index)):
+                return "merge_nets_reindexes_res_tables_independently"  # a valid result row of net2 got another new label than its element
+        if kind == "characteristic_table" and stale:
+            tab = "shunt_characteristic_table" if table == "shunt" else "trafo_characteristic_table"
+            if all(refwalk.has(x, tab) and r["target"] in set(x[tab].id_characteristic.dropna().values) for x in inputs):
+                return "merge_nets_characteristic_ids_collide"  # the unchanged id exists in the tables of both input nets
     if not stale:
         return None
     if fam == "select":
@@ -512,8 +559,6 @@ def classify(info, r, stale, pre, net):
             return "reindex_elements_ignores_bus_element_measurements"
         if kind == "res_index" and reindexed(tt) and (op != "create_continuous_elements_index" or tt in NO_RES_IN_EBT):
             return "reindex_elements_leaves_res_table"
-        if kind == "characteristic_table" and table == "shunt" and op == "merge_nets":
-            return "merge_nets_shunt_characteristic_ids_collide"
         return None
     if op in ("fuse_buses", "drop_inner_branches") and tt in ("impedance", "dcline", "switch", "trafo3w", "trafo") and kind in (
             "group_member", "res_index", "cost_element"):
@@ -551,7 +596,15 @@ def _reals(fs):
     return {x for x in fs if _real(x)}
 
 
-def compare_relations(info, before, after):
+def _all_uids(net):
+    out = set()
+    for k, df in richnet.input_tables(net):
+        if UID in df.columns:
+            out.update(v for v in df[UID].values if isinstance(v, str))
+    return out
+
+
+def compare_relations(info, before, after, pre):
     """identity oracle: [(key, before (raw, ident), after (raw, ident), what)] for references that changed their target although
     the operation is a pure renaming (every reference must be exactly preserved), or - for all other operations - that
     point to a different pre-existing row than before"""
@@ -566,6 +619,7 @@ def compare_relations(info, before, after):
             elif b[1] != a[1]:
                 out.append((k, b, a, "target changed by a pure renaming"))
         return out
+    old_uids = None
     for k in before.keys() & after.keys():
         b, a = before[k][1], after[k][1]
         if b == a or (k[0] == "group_member" and op == "create_ref"):  # attach_to_group adds members
@@ -573,11 +627,13 @@ def compare_relations(info, before, after):
         if op == "fuse_buses" and (k[0] in ("bus", "measurement_side") or before[k][0] in (("bus", before[k][0][1]), ("b", before[k][0][1]))
                                    if isinstance(before[k][0], tuple) else k[0] in ("bus", "measurement_side")):
             continue  # rerouting bus references is the purpose of the operation
-        if isinstance(b, frozenset) and isinstance(a, frozenset):
-            if _reals(a) <= _reals(b):
+        if isinstance(b, frozenset) and isinstance(a, frozenset):  # members may go, and rows created by the operation may join
+            old_uids = _all_uids(pre) if old_uids is None else old_uids
+            if _reals(a) & old_uids <= _reals(b):
                 continue
         elif isinstance(b, tuple) and isinstance(a, tuple):
-            if b[0] == a[0] and _reals(a[1]) <= _reals(b[1]):
+            old_uids = _all_uids(pre) if old_uids is None else old_uids
+            if b[0] == a[0] and _reals(a[1]) & old_uids <= _reals(b[1]):
                 continue
         elif not (_real(b) and _real(a)):
             continue
@@ -611,6 +667,20 @@ def repair(net):
             elif kind == "characteristic_table":
                 net[t].loc[row, r["col"]] = pd.NA
     return False
+
+
+def resync_sides(net):
+    """a numeric measurement side that is an existing bus but no terminal of the measured branch (left behind by fuse_buses, see
+    fuse_buses_keeps_measurement_side) would dangle later through no fault of the later operation: harness-side correction"""
+    n = 0
+    ms = net.measurement
+    for i, et, el, side in zip(list(ms.index), ms.element_type.values, ms.element.values, ms.side.values):
+        if refwalk._isnum(side) and refwalk.has(net, et) and el in net[et].index and net[et].index.is_unique and ms.index.is_unique:
+            terms = [net[et].at[el, c] for c in refwalk.BUS_COLS if c in net[et].columns]
+            if terms and side not in terms:
+                net.measurement.at[i, "side"] = terms[0]
+                n += 1
+    return n
 
 
 def is_stale(r, before, after, pre):
@@ -673,6 +743,7 @@ def run_case(seed, tier, case_no):
             continue
         net = new
         before = info.pop("_rel_union", rel)
+        inputs = info.pop("_inputs", None)
         history.append(info)
         op = info["op"]
         tags.add("op:" + op)
@@ -683,7 +754,7 @@ def run_case(seed, tier, case_no):
         dangling_keys = set()
         for r in recs:
             stale = is_stale(r, before, after, pre)
-            mech = classify(info, r, stale, pre, net)
+            mech = classify(dict(info, _inputs=inputs) if inputs else info, r, stale, pre, net)
             dangling_keys.add(r["rkey"])
             count("dangling:" + r["kind"])
             r = {k: (list(v) if isinstance(v, tuple) else v) for k, v in r.items()}
@@ -691,7 +762,7 @@ def run_case(seed, tier, case_no):
                    "after %s: dangling %s reference %s[%s].%s -> %s[%s]%s" % (
                        op, r["kind"], r["table"], r["row"], r["col"], r["target_table"], r["target"],
                        " (stale: untouched by the operation)" if stale else ""), mech, op=info, record=r, stale=stale)
-        for k, b, a, what in compare_relations(info, before, after):
+        for k, b, a, what in compare_relations(info, before, after, pre):
             if k in dangling_keys:
                 continue  # already reported by the walker
             kind = k[0]
@@ -700,9 +771,9 @@ def run_case(seed, tier, case_no):
             tt = (b[0][0] if b and isinstance(b[0], tuple) else None)
             tt = refwalk.SWITCH_TABLE.get(tt, tt) if kind == "switch_element" else tt
             pseudo = dict(kind="bus" if kind == "bus" else kind, table=k[1] if kind in ("bus", "cost_element", "characteristic_table") else
-                          kind.split("_")[0], col=col, target_table="bus" if kind in ("bus", "measurement_side") else tt, target=None,
-                          row=None, rkey=k)
-            mech = classify(info, pseudo, stale, pre, net) if b is not None and a is not None else None
+                          kind.split("_")[0], col=col, target_table="bus" if kind in ("bus", "measurement_side") else tt,
+                          target=a[0] if a is not None and not isinstance(a[0], tuple) else None, row=None, rkey=k)
+            mech = classify(dict(info, _inputs=inputs) if inputs else info, pseudo, stale, pre, net) if b is not None and a is not None else None
             count("retargeted:" + kind)
             report((op, "identity", kind, pseudo["table"], pseudo["target_table"], mech),
                    "after %s: %s reference of %s: %s: %s -> %s" % (op, kind, list(k[1:]), what, b, a), mech, op=info, rkey=list(k),
@@ -716,6 +787,7 @@ def run_case(seed, tier, case_no):
             if not repair(net):
                 tags.add("repair_failed")
                 break
+        count("side_resync", resync_sides(net))
         richnet.stamp_uids(net, "S%d" % len(history))
         rel = refwalk.relations(net)
     sample = {"profile": profile, "net": netgen.describe(net), "ops": [h["op"] for h in history]}
